@@ -5,6 +5,7 @@ families of related queries, for every cache configuration, implementation vs th
 Oracle: every evaluation of every history is repeated with no cache at all in a fresh registry/context and the
 observables C04 names (value or failure, volatility, final state variables, file name, extension) must be equal.
 """
+import os
 import evalprops as EP
 import evalharness as H
 
@@ -53,9 +54,93 @@ def judge(ctx, cfgs, tasks, results):
             ctx.sample(dict(config=name, history=[list(o) for o in ops]))
 
 
+RES_QUERIES = ["-R/cache_in/hello.txt/-/ident", "cachex.txt/-/ident/cat-a", "-R/present.txt/-/ident", "one/cat-~X~/cache_in/hello.txt/-/ident~E"]
+
+
+def shared_store_task(task):
+    """'fixed store contents': a store-backed cache that lives in the SAME store as the resources the queries read (cache directory
+    `cache`, resources under names that merely start with that text). history: evaluate, evaluate something cacheable, clean / remove,
+    evaluate again -> every outcome equals the NoCache outcome, and no store key outside the cache directory has changed.  Oracle only
+    (resource segments are outside the evaluator model)."""
+    kind, flat = task
+    import shutil
+    from liquer.cache import StoreCache, NoCache, set_cache
+    from liquer.store import MemoryStore, FileStore, set_store
+    from liquer.context import get_context
+    import liquer.state as S
+    import evalharness as H
+    tmp = EP.scratch()
+    bad = []
+    try:
+        def fill(st):
+            st.store("cache_in/hello.txt", b"hello", {})
+            st.store("cachex.txt", b"x", {})
+            st.store("present.txt", b"present", {})
+            return st
+
+        def outside(st):
+            return sorted((k, st.get_bytes(k)) for k in st.keys() if not st.is_dir(k) and not (k + "/").startswith("cache/"))
+        EP.vocab.register()
+        S._vars = {}
+        # reference: NoCache on an identical store
+        set_store(fill(MemoryStore()))
+        set_cache(NoCache())
+        want = {q: EP.obs_public(H.observe_nolog(lambda q=q: get_context().evaluate(q))) for q in RES_QUERIES}
+        st = fill(MemoryStore() if kind == "mem" else FileStore(os.path.join(tmp, "st")))
+        set_store(st)
+        cache = StoreCache(st, "cache", flat=flat)
+        set_cache(cache)
+        before = outside(st)
+        hist = []
+        for step in ("E", "warm", "E", "clean", "E", "warm", "remove", "E"):
+            hist.append(step)
+            if step == "E":
+                for q in RES_QUERIES:
+                    got = EP.obs_public(H.observe_nolog(lambda q=q: get_context().evaluate(q)))
+                    if got != want[q]:
+                        bad.append(("shared-store:%s:%s" % (kind, q), "StoreCache(%s, 'cache', flat=%s) living in the store the resources are read from, history %s: evaluate(%r) gives %r, with NoCache %r" % (
+                            kind, flat, "/".join(hist), q, got, want[q])))
+            elif step == "warm":
+                get_context().evaluate("one/add-1")
+            elif step == "clean":
+                cache.clean()
+            elif step == "remove":
+                cache.remove("one/add-1")
+            now = outside(st)
+            if now != before:
+                bad.append(("shared-store-contents:%s" % kind, "StoreCache(%s, 'cache', flat=%s), history %s: store keys outside the cache directory changed from %r to %r" % (
+                    kind, flat, "/".join(hist), [k for k, _ in before], [k for k, _ in now])))
+                before = now
+        return bad
+    finally:
+        shutil.rmtree(tmp, ignore_errors=True)
+
+
+def shared_store_family(ctx):
+    tasks = [(k, f) for k in ("mem", "file") for f in (True, False)]
+    for t, bad in zip(tasks, EP.common.pmap(shared_store_task, tasks)):
+        ctx.case("shared-store|%s|%s" % t)
+        ctx.count("family", "store-backed cache sharing the store with the resources (oracle only)")
+        for key, text in bad:
+            ctx.violation(key, text, dict(kind="shared-store", store=t[0], flat=t[1]))
+
+
+MUTATOR_HISTORIES = EP.MUTATOR_HISTORIES
+
+
+def mutator_sessions(ctx, cfgs):
+    """in-place mutators on DICTIONARY values (nested containers too): implementation-side oracle only (the model's value domain has no
+    dictionaries; C10's heap model covers in-place mutation of lists): every evaluation equals the evaluation without cache"""
+    tasks = [(ci, [("E", q) for q in h], {}, ("fresh",)) for ci in range(len(cfgs)) for h in MUTATOR_HISTORIES]
+    judge(ctx, cfgs, tasks, EP.common.pmap(EP.run_session_task, tasks))
+    ctx.count("family", "in-place mutators on dictionaries (oracle only)", len(tasks))
+
+
 def run(ctx):
+    shared_store_family(ctx)
     per = 150 if ctx.tier == "thorough" else 40
     cfgs, tasks = gen_sessions(ctx, per)
+    mutator_sessions(ctx, cfgs)
     results = EP.common.pmap(EP.run_session_task, tasks)
     judge(ctx, cfgs, tasks, results)
     sessions = [(t[1], t[2]) for t in tasks]
@@ -73,6 +158,9 @@ def search(ctx, broken, disagreements):
 
 
 def replay(ctx, case):
+    if case.get("kind") == "shared-store":
+        bad = shared_store_task((case["store"], case["flat"]))
+        return bad[0][1] if bad else None
     cfgs = EP.cache_configs("/nonexistent")
     ci = [c[0] for c in cfgs].index(case["config"])
     ops = [tuple(o) if o[0] != "XD" else (o[0], o[1], dict(o[2])) for o in case["ops"]]
